@@ -15,12 +15,12 @@ CHECKS = {
  'C02': dict(tech='runtime oracle: dense extended-precision reconstruction, multiplier threshold and diagonal-preference checks on every execution',
    text='Direct factorization calls over random/structured families with all thresholds and tuning parameters, plus every structurally nonsingular 0/1 pattern n<=3 (quick) / n<=4 (thorough) under every forced pivot order; each returned factorization is reconstructed in extended precision against gamma(n)|L||U|, multipliers and diagonal preference are judged from the factors.',
    note='Diagonal candidates within 16 ulp of the threshold are not judged; complex magnitudes use |re|+|im| as the library does.', ref='5/C02'),
- 'C03': dict(tech='ThreadSanitizer with happens-before annotations of the flag protocol + offline event-log checker + numerical consequence',
-   text='Three monitors on the real threaded code: (1) gcc TSan, one factorization per process, told exactly the flag edges the algorithm relies on, so unordered accesses to L/U data are reported even when the bad timing did not occur; (2) an offline checker over the merged event log (consume-after-release, no interchange or pruning of rows being read, each update once, scheduler children rule, wait path = busy chain); (3) the C02 reconstruction of the same runs.',
-   note='Sampled interleavings (perturbation, oversubscription), x86-TSO only; TSan trusts the annotated flag words. The exhaustive small-forest scheduler exploration of the design is not built yet.', ref='5/C03'),
- 'C04': dict(tech='watchdog + exactly-once counters from the event log + thread census around the call',
-   text='Stress runs with up to 64 threads on 16 cores, long injected delays at scheduler exit/column release, singular inputs; the event log proves per execution that every column/panel was processed exactly once by one thread, tasks_remain counts down to 0 exactly at the last take, queue indices stay within n, and /proc/self/task is unchanged; two watchdog time-outs are a hang witness.',
-   note='"Eventually" is decided as "returned within the watchdog on every executed schedule".', ref='5/C04'),
+ 'C03': dict(tech='ThreadSanitizer with happens-before annotations of the flag protocol + offline event-log checker + numerical consequence + exhaustive interleaving execution of the real scheduler code on small forests',
+   text='Three monitors on the real threaded code: (1) gcc TSan, one factorization per process, told exactly the flag edges the algorithm relies on, so unordered accesses to L/U data are reported even when the bad timing did not occur; (2) an offline checker over the merged event log (consume-after-release, no interchange or pruning of rows being read, each update once, scheduler children rule, wait path = busy chain); (3) the C02 reconstruction of the same runs; (4) the library\'s own ParallelInit / pxgstrf_scheduler / pxgstrf_mark_busy_descends executed by a harness under every interleaving of simulated workers for every postordered forest with n<=5 columns (quick; n<=7 and a sample of n=8 thorough), asserting the children rule, the busy chain and the queue/tasks invariants after every action.',
+   note='Sampled interleavings (perturbation, oversubscription) for the threaded runs, x86-TSO only; TSan trusts the annotated flag words. The explorer executes the scheduler code sequentially (atomicity of its critical section is taken from the lock; TSan covers that part) and memoises states by a 64-bit hash.', ref='5/C03'),
+ 'C04': dict(tech='in-process lost-wake-up monitor (all workers empty-handed and polling with no event in between) + watchdog + exactly-once counters from the event log + thread census + exhaustive interleaving execution of the real scheduler code on small forests',
+   text='Stress runs with up to 64 threads on 16 cores, long injected delays at scheduler exit/column release, singular inputs; the event log proves per execution that every column/panel was processed exactly once by one thread, tasks_remain counts down to 0 exactly at the last take, queue indices stay within n, and /proc/self/task is unchanged; a watch thread inside the probe reports the state "every worker\'s latest scheduler call came back empty, each has polled again since, no event in between" (from which the call cannot return, whatever the timing); two watchdog time-outs are a hang witness; bushy elimination trees (stars, k-ary, caterpillars) repeated 40x per case put many siblings under one parent; the scheduler explorer of C03 asserts tasks_remain = untaken panels, queue bounds, exactly-once and absence of states without an enabled action for all small forests.',
+   note='"Eventually" is decided as "no lost-wake-up state and returned within the watchdog on every executed schedule".', ref='5/C04'),
  'C05': dict(tech='AddressSanitizer+UBSan build of the whole library under hostile workloads + slot-bound shadow monitor at the L-supernode allocation hook',
    text='ASan/UBSan executions of drivers and direct factorization in static and dynamic storage modes, all forced pivot orders on small patterns, too-small size estimates (must end in the library diagnostic); the slot monitor checks every L-supernode allocation against the slot reserved by ?PresetMap/DynamicSetMap, the one overflow ASan cannot see.',
    note='ASan guards heap block ends only; intra-block overruns of the per-thread work arrays are caught only through their consequences.', ref='5/C05'),
